@@ -103,6 +103,10 @@ enum PrintAnswer {
     Err0507,
     Http403,
     Cut,
+    /// the connection that carries the Print-Job is RESET after the peer read 64 bytes of it / after the peer read all
+    /// of it; every later connection is served normally (a printer waking up, a firewall dropping state)
+    ResetEarly,
+    ResetLate,
 }
 
 const BLOCKING3: [&str; 10] = [
@@ -130,7 +134,9 @@ fn state_answers() -> Vec<StateAnswer> {
     v.push(StateAnswer::Http500);
     v
 }
-const PRINT_ANSWERS: [PrintAnswer; 8] = [
+const PRINT_ANSWERS: [PrintAnswer; 10] = [
+    PrintAnswer::ResetEarly,
+    PrintAnswer::ResetLate,
     PrintAnswer::Ok0000,
     PrintAnswer::Ok0001,
     PrintAnswer::Err040a,
@@ -254,11 +260,27 @@ fn run_util(c: &Case, bin: &std::path::Path, scratch: &std::path::Path, contents
     let log: Arc<Mutex<Vec<Exchange>>> = Arc::new(Mutex::new(vec![]));
     let log2 = log.clone();
     let (state, print) = (c.state, c.print);
+    // the connection that is reset: the one carrying the Print-Job (the second one when the state check runs first)
+    let reset_conn = if c.no_check { 0usize } else { 1 };
     let server = std::thread::spawn(move || {
         let t0 = Instant::now();
+        let mut conn_no = 0usize;
+        let mut reset_done = false;
         loop {
             if let Some(s) = l.accept(Duration::from_millis(10)) {
                 let mut s = s;
+                let reset_this = matches!(print, PrintAnswer::ResetEarly | PrintAnswer::ResetLate) && conn_no == reset_conn && !reset_done;
+                conn_no += 1;
+                if reset_this {
+                    reset_done = true;
+                    if print == PrintAnswer::ResetEarly {
+                        read_some_then_reset(s, 64);
+                    } else {
+                        let _ = read_request(&mut s, Instant::now() + Duration::from_secs(30));
+                        reset(s);
+                    }
+                    continue;
+                }
                 let ex = read_request(&mut s, Instant::now() + Duration::from_secs(30));
                 let op = r1::decode(&ex.body).map(|m| (m.code, m.request_id)).unwrap_or((0xffff, 1));
                 let script = if op.0 == 0x000b { state.script(op.1) } else { print.script(op.1) };
@@ -383,6 +405,36 @@ fn judge(c: &Case, o: &Observed, port: u16, contents: &[Vec<u8>]) -> Result<(), 
             return Ok(());
         }
     }
+    if matches!(c.print, PrintAnswer::ResetEarly | PrintAnswer::ResetLate) {
+        // the connection carrying the job was reset (that exchange is not in the log). The tool may give up - then
+        // nothing further may arrive and the exit status is non-zero - or submit again on a new connection - then that
+        // must be ONE complete Print-Job with exactly the input as its document. Never exit 0 without such a job.
+        let later: Vec<&(u16, &Exchange, Option<Msg>)> = ops.iter().skip(idx).collect();
+        if later.len() > 1 {
+            return fail("print-job-count", format!("{} requests after the reset: {:04x?}", later.len(), codes));
+        }
+        match later.first() {
+            None => {
+                if o.exit_code == Some(0) {
+                    return fail("exit-zero-on-failure", "the Print-Job connection was reset, nothing else was submitted, but exit status is 0".into());
+                }
+                return Ok(());
+            }
+            Some((code, _, m)) => {
+                if *code != 0x0002 {
+                    return fail("print-job-count", format!("request {:04x} after the reset", code));
+                }
+                let pj = m.as_ref().unwrap();
+                if pj.data != contents[c.content] {
+                    return fail(
+                        "document-differs",
+                        format!("after the reset a Print-Job with a document of {} bytes was submitted; the input has {} bytes (exit status {:?})", pj.data.len(), contents[c.content].len(), o.exit_code),
+                    );
+                }
+                return Ok(());
+            }
+        }
+    }
     if codes.len() != idx + 1 || codes[idx] != 0x0002 {
         return fail("print-job-count", format!("expected exactly one Print-Job after {} state request(s); requests seen: {:04x?} (stderr: {})", idx, codes, o.stderr.trim()));
     }
@@ -434,7 +486,7 @@ pub fn run(ctx: &Ctx) -> ! {
     let mut rep = Report::new(
         ctx,
         "exploration",
-        "the real ipputil binary (built from /repo's working tree) against scripted loopback printers. (A) every list of 0..2 (3) options from {a=true, a=false, n=0, n=-1, n=2147483647, n=2147483648, x=1.5, k=v=w, e=, t=True, page-ranges=1-2,5-6, n=1,2} (duplicate keys included), plus 24 typing witnesses used alone and next to one other option (zero-padded and negative decimals up to 20 digits, the 32-bit limits and their neighbours, -0, 0x10, 1e3, '5 ', non-ASCII digits, 1_000, TRUE, yes, 'true ', 1, 0; the expected type comes from a decimal rule written without the standard integer parser) x -j {absent, job, 'jöb name'} x -u {absent, u}; (B) content {0 B, 1 B, %PDF + every byte value, 8191/8192/8193 B, 1 MiB+1 (8 MiB+1)} x {-f file, stdin} x -H {none, X-A=b}; (C) printer scripts: Get-Printer-Attributes answered {idle/none, processing/informational, stopped, idle + each of the 10 blocking reasons as scalar and inside a set, IPP 0x0503 / 0x0400 / 0x0500, HTTP 500} with the state check on, and Print-Job answered {0x0000, 0x0001, 0x040a, 0x0400, 0x0500, 0x0507, HTTP 403, connection cut} with the check on (ready printer) and off. Oracle: request sequence seen by the peer (state query first unless -n; nothing submitted to a stopped / blocked / failing printer; exactly one Print-Job with document octets = input, job-name / requesting-user-name as name, options typed by their text, last wins per key, custom header present) and exit status 0 <=> every exchange succeeded with a successful IPP status. distinct = command line x printer script",
+        "the real ipputil binary (built from /repo's working tree) against scripted loopback printers. (A) every list of 0..2 (3) options from {a=true, a=false, n=0, n=-1, n=2147483647, n=2147483648, x=1.5, k=v=w, e=, t=True, page-ranges=1-2,5-6, n=1,2} (duplicate keys included), plus 24 typing witnesses used alone and next to one other option (zero-padded and negative decimals up to 20 digits, the 32-bit limits and their neighbours, -0, 0x10, 1e3, '5 ', non-ASCII digits, 1_000, TRUE, yes, 'true ', 1, 0; the expected type comes from a decimal rule written without the standard integer parser) x -j {absent, job, 'jöb name'} x -u {absent, u}; (B) content {0 B, 1 B, %PDF + every byte value, 8191/8192/8193 B, 1 MiB+1 (8 MiB+1)} x {-f file, stdin} x -H {none, X-A=b}; (C) printer scripts: Get-Printer-Attributes answered {idle/none, processing/informational, stopped, idle + each of the 10 blocking reasons as scalar and inside a set, IPP 0x0503 / 0x0400 / 0x0500, HTTP 500} with the state check on, and Print-Job answered {0x0000, 0x0001, 0x040a, 0x0400, 0x0500, 0x0507, HTTP 403, connection cut, the Print-Job connection RESET after 64 bytes / after the whole request with every later connection served normally (x every content size x file / stdin)} with the check on (ready printer) and off. Oracle: request sequence seen by the peer (state query first unless -n; nothing submitted to a stopped / blocked / failing printer; exactly one Print-Job with document octets = input, job-name / requesting-user-name as name, options typed by their text, last wins per key, custom header present) and exit status 0 <=> every exchange succeeded with a successful IPP status. distinct = command line x printer script",
     );
     let bin = ctx.verif_dir.join("target/util/release/ipputil");
     if !bin.exists() {
@@ -504,6 +556,14 @@ pub fn run(ctx: &Ctx) -> ! {
     for p in PRINT_ANSWERS {
         for no_check in [false, true] {
             cases.push(Case { no_check, print: p, user: Some("u"), options: vec![0, 2], ..base.clone() });
+        }
+    }
+    // resets with every content size, from a file and from standard input (a one-shot stream cannot be re-read)
+    for p in [PrintAnswer::ResetEarly, PrintAnswer::ResetLate] {
+        for content in 0..cont.len() {
+            for stdin in [false, true] {
+                cases.push(Case { no_check: true, print: p, content, stdin, ..base.clone() });
+            }
         }
     }
 
